@@ -13,6 +13,16 @@ C03  Conservative output reproduces unmodified source verbatim.
      children alone cannot notice a child that was dropped.
  R3  ``fgen(..., conservative=True)`` selects the conservative visitor and the
      public writers forward the flag.
+ R4  in-place structural mutators invalidate: a method of an IR node class that
+     replaces one of its traversable fields via ``self._update(<field>=...)``
+     must also reset / invalidate the node's ``source`` -- otherwise the node
+     stays VALID and the conservative backend prints its stale text.
+ R5  program-unit setters that mutate ``self.spec`` / ``self.body`` in place are
+     followed, unconditionally, by a rebuild of that section (which marks it
+     INVALID_CHILDREN) or by an explicit invalidation.
+ R6  monotone invalidation: a node-level ``source.invalidate()`` is never
+     guarded by the source still being valid (INVALID_CHILDREN must still be
+     upgraded to INVALID_NODE when the node's own expressions change).
 Not decided: verbatim equality of whole unmodified files (holds through the
 top-level source object); behaviour of the text surgery for INVALID_* nodes.
 """
@@ -170,6 +180,94 @@ def run(ctx):
         (ctx.judge('R3', qn) if fw else
          ctx.violation('R3', qn, f.where, f'{qn} does not forward its conservative argument to the backend'))
 
+    # ---- R4
+    ctx.rule('R4', 'IR node methods calling self._update(<traversable field>=...) also pass source=... or invalidate self.source')
+    from sa import dispatch as D2
+    nsite = 0
+    for c in D2.ir_node_classes(m):
+        if c.name == 'PragmaRegion':
+            continue    # synthesised by attach_pragma_regions without a source object: the VALID guard never applies
+        # only fields that hold child *nodes*: replacing them adds/removes statements (expression-only rewrites such as
+        # CallStatement.sort_kwarguments keep the meaning of the original text)
+        trav = {n for n, (a, d, o) in m.dataclass_fields(c).items()
+                if n in D2.traversable(m, c) and D2.annotation_mentions(a, {'Node'})}
+        for mem in c.members.values():
+            if mem.kind != 'func' or mem.name.startswith('__') or mem.name in ('_update', '_rebuild'):
+                continue
+            fn = mem.node
+            ups = [n for n in ast.walk(fn) if isinstance(n, ast.Call) and X.dotted_attr(n.func) == 'self._update'
+                   and any(k.arg in trav for k in n.keywords)]
+            if not ups:
+                continue
+            nsite += 1
+            handles = any(k.arg == 'source' for u in ups for k in u.keywords) or \
+                any(isinstance(n, ast.Call) and (X.dotted_attr(n.func) or '').endswith('source.invalidate') for n in ast.walk(fn))
+            inst = f'{c.name}.{mem.name}'
+            if handles:
+                ctx.judge('R4', inst)
+            else:
+                ctx.violation('R4', inst, f'{c.module.relpath}:{fn.lineno}',
+                              f'{inst} replaces {[k.arg for k in ups[0].keywords]} in place but leaves self.source untouched: the node '
+                              f'stays VALID and conservative output prints its old text (the modification is lost)')
+    ctx.floor('R4', 'in-place child-list mutator methods on IR nodes', nsite, 3)
+
+    # ---- R5
+    ctx.rule('R5', 'functions in program_unit/subroutine/module/function that call self.<section>.append/prepend/insert are '
+                   'followed by an unconditional `self.<section> = <Transformer>.visit(self.<section>)` or an invalidation')
+    n5 = 0
+    for rel in ('loki/program_unit.py', 'loki/subroutine.py', 'loki/module.py', 'loki/function.py'):
+        mod = m.module_by_path(rel)
+        for c in mod.classes.values():
+            for mem in c.members.values():
+                if mem.kind != 'func':
+                    continue
+                fn = mem.node
+                muts = [n for n in ast.walk(fn) if isinstance(n, ast.Call) and isinstance(n.func, ast.Attribute)
+                        and n.func.attr in ('append', 'prepend', 'insert')
+                        and (X.dotted_attr(n.func.value) or '') in ('self.spec', 'self.body', 'self.contains', 'self.docstring')]
+                for mu in muts:
+                    n5 += 1
+                    sec = X.dotted_attr(mu.func.value)
+                    ok = False
+                    for st in fn.body:
+                        if st.lineno <= mu.lineno:
+                            continue
+                        txt = ast.unparse(st)
+                        if isinstance(st, ast.Assign) and ast.unparse(st.targets[0]) == sec and f'.visit({sec})' in txt:
+                            ok = True
+                        if '.invalidate(' in txt and not isinstance(st, ast.If):
+                            ok = True
+                    inst = f'{c.name}.{mem.name}:{sec}.{mu.func.attr}'
+                    if ok:
+                        ctx.judge('R5', inst)
+                    else:
+                        ctx.violation('R5', inst, f'{mod.relpath}:{mu.lineno}',
+                                      f'{c.name}.{mem.name} adds a node to {sec} in place and no unconditional rebuild/invalidation of '
+                                      f'{sec} follows: the section keeps a VALID source and conservative output omits the new node')
+    ctx.floor('R5', 'in-place section mutations in program-unit setters', n5, 2)
+
+    # ---- R6
+    ctx.rule('R6', 'no node-level `.invalidate()` call (children not set) is guarded by is_valid()/status == VALID of that source')
+    n6 = 0
+    for rel in ('loki/ir/expr_visitors.py', 'loki/ir/transformer.py', 'loki/lint/utils.py'):
+        mod = m.module_by_path(rel)
+        for fnode in [n for n in ast.walk(mod.tree) if isinstance(n, (ast.FunctionDef, ast.AsyncFunctionDef))]:
+            sites = X.nodes_with_guards(fnode, lambda n: isinstance(n, ast.Call) and isinstance(n.func, ast.Attribute)
+                                        and n.func.attr == 'invalidate')
+            for call, guards in sites:
+                node_level = not any(k.arg == 'children' for k in call.keywords) and not call.args
+                n6 += 1
+                inst = f'{fnode.name}:{ast.unparse(call)}'
+                gt = ' and '.join(guards)
+                if node_level and ('is_valid()' in gt or 'SourceStatus.VALID' in gt or 'is_source_valid(' in gt):
+                    ctx.violation('R6', inst, f'{mod.relpath}:{call.lineno}',
+                                  f'`{ast.unparse(call)}` only runs while the source is still valid ({gt}): a node already marked '
+                                  f'INVALID_CHILDREN is not upgraded to INVALID_NODE when its own expressions change, and its stale '
+                                  f'header line is reused')
+                else:
+                    ctx.judge('R6', inst, nontrivial=node_level, facts={'guards': guards})
+    ctx.floor('R6', 'invalidate call sites', n6, 6)
+
 
 MUTANTS = [
     Mutant('drop-conservative-override', CON,
@@ -188,6 +286,16 @@ MUTANTS = [
     Mutant('write-drops-flag', 'loki/sourcefile.py',
            "source = self.to_fortran(conservative, cuf, style=style) if source is None else source",
            "source = self.to_fortran(cuf=cuf, style=style) if source is None else source", expect=('R3', 'Sourcefile.write')),
+    Mutant('invalidate-only-if-valid', 'loki/ir/expr_visitors.py',
+           "        if kwargs.get('source') and o != new:\n            kwargs['source'].invalidate()",
+           "        if kwargs.get('source') and kwargs['source'].is_valid() and o != new:\n            kwargs['source'].invalidate()",
+           expect=('R6', 'visit_Expression')),
+    Mutant('variables-setter-skips-rebuild', 'loki/program_unit.py',
+           "        self.spec = Transformer(dmap).visit(self.spec)\n\n    @property\n    def variable_map",
+           "        if dmap:\n            self.spec = Transformer(dmap).visit(self.spec)\n\n    @property\n    def variable_map",
+           expect=('R5', 'variables')),
+    Mutant('repair-section-append', 'loki/ir/nodes/internal_nodes.py', "        self._update(body=self.body + as_tuple(node))",
+           "        self._update(body=self.body + as_tuple(node), source=None)", expect=None),
     Mutant('neutral-new-conservative-handler', CON,
            "    def visit_Section(self, o, *args, **kwargs):\n",
            "    def visit_Allocation(self, o, *args, **kwargs):\n        if o.source and o.source.status == SourceStatus.VALID:\n            return o.source.string\n        return super().visit_Allocation(o, *args, **kwargs)\n\n    def visit_Section(self, o, *args, **kwargs):\n",
